@@ -45,7 +45,7 @@ ALL_CFGS = [(cc, std, exc) for cc in CCS for std in STDS for exc in EXCS]
 QUICK_PAIR_CFGS = [("g++", "c++14", "exceptions")]
 
 # own wall-clock budgets (seconds after the start of the run); the driver's deadline applies as well
-BUDGET = {"quick": 200, "thorough": 1680}
+BUDGET = {"quick": 170, "thorough": 1680}
 JSON_DIRS = ["/root/miniconda/include", "/usr/include", "/usr/local/include"]
 
 _lock = threading.Lock()
@@ -334,7 +334,7 @@ def judge_pairs(ctx, results, broken):
         msg = ("%d ordered pair(s) of headers fail in one translation unit although each header compiles alone in the same configuration: %s. "
                "Configurations: %s. Example '#include <xtl/%s>' then '#include <xtl/%s>' [%s] %s: %s. Expected: headers can be included in any order." % (
                    len(ps), ", ".join("%s->%s" % p for p in ps[:12]) + (" ..." if len(ps) > 12 else ""), "; ".join(cfg_name(x) for x in cf), a, b, cfg_name(c), st, diag))
-        ctx.violation(sig, msg, harness="c19-pairs", args=[json.dumps({"kind": "pairs", "pairs": ps, "cfgs": cf})])
+        ctx.violation(sig, msg, harness="c19-pairs", args=[json.dumps({"kind": "pairs", "pairs": ps, "cfgs": [c]})])
 
 
 # ---- U3: link ------------------------------------------------------------------------------------------------------
@@ -383,13 +383,53 @@ def sym_of(line):
     return s.strip().replace("/", "_") or None
 
 
-def run_link_cfg(ctx, headers, cfg, keep, bud):
-    """One configuration of U3. -> list of findings (stage, key, diag) ; [] = all fine; None = skipped (deadline)."""
+XTL_SYM = re.compile(r"\b(xtl|half_float|mpark|tcb)::")
+
+
+def run_keep_cfg(ctx, headers, cfg, bud):
+    """g++ -fkeep-inline-functions variant of U3: every inline function of the headers that is not a template is emitted,
+    whether the TU calls it or not, so the object's symbol table shows every symbol ANY of them refers to.  xtl is header-only:
+    a symbol of an xtl namespace that the object refers to but does not define is one the linker cannot find anywhere.
+    (The real link is not used for this variant: with the flag libstdc++'s own inline functions are kept as well, and under
+    C++17/20 some of those refer to symbols libstdc++.so does not export; that is not xtl's business.)"""
     if bud.left() < 0:
         return None
-    d = os.path.join(GENDIR, "link", cfg_slug(cfg) + ("-keep" if keep else ""))
+    d = os.path.join(GENDIR, "link", cfg_slug(cfg) + "-keep")
     os.makedirs(d, exist_ok=True)
-    extra = ["-O0", "-c"] + (["-fkeep-inline-functions"] if keep else [])
+    src = os.path.join(d, "tu0.cpp")
+    obj = os.path.join(d, "tu0.o")
+    write_file(src, link_tu_text(headers, 0))
+    rc, _, err = run_tool(cc_cmd(cfg, ["-O0", "-c", "-fkeep-inline-functions", src, "-o", obj]), timeout=900)
+    stat(ctx, "tool_runs", 2)
+    if rc != 0:
+        return [("tu-compile", "alphabetical", first_error(err))]
+    finds = []
+    rc, out, _ = run_tool(["nm", "-C", obj])
+    if rc != 0:
+        raise vlib.HarnessError("nm failed on %s" % obj)
+    defined = set()
+    for ln in out.splitlines():
+        m = re.match(r"^\s*([0-9a-f]*)\s+([A-Za-z])\s+(.*)$", ln)
+        if not m or not XTL_SYM.search(m.group(3)) or "nlohmann" in m.group(3):
+            continue
+        if m.group(2) == "U":
+            s = re.sub(r"\(.*$", "", re.sub(r"\[abi:[^\]]*\]", "", m.group(3))).strip().replace("/", "_")
+            finds.append(("keep-inline", (s, "undefined-symbol"), "object of a TU that includes all headers refers to '%s' but no xtl header defines it" % m.group(3)))
+        else:
+            defined.add(m.group(3))
+    shutil.rmtree(d, ignore_errors=True)
+    return [("nsyms", len(defined), "")] + finds
+
+
+def run_link_cfg(ctx, headers, cfg, keep, bud):
+    """One configuration of U3. -> list of findings (stage, key, diag) ; [] = all fine; None = skipped (deadline)."""
+    if keep:
+        return run_keep_cfg(ctx, headers, cfg, bud)
+    if bud.left() < 0:
+        return None
+    d = os.path.join(GENDIR, "link", cfg_slug(cfg))
+    os.makedirs(d, exist_ok=True)
+    extra = ["-O0", "-c"]
     finds = []
     objs = {}
     srcs = {"tu0": link_tu_text(headers, 0), "tu1": link_tu_text(headers, 1), "main1": MAIN1, "main2": MAIN2}
@@ -407,18 +447,7 @@ def run_link_cfg(ctx, headers, cfg, keep, bud):
     stat(ctx, "tool_runs", 4)
     if "tu0" not in objs or "tu1" not in objs:
         return finds
-    nsyms = None
-    if keep:
-        rc, out, _ = run_tool(["nm", "-C", "--defined-only", objs["tu0"]])
-        if rc == 0:
-            names = set()
-            for ln in out.splitlines():
-                p = ln.split(None, 2)
-                if len(p) == 3 and p[1] in "WTtVvuD" and re.match(r"(?:[\w:<>,\s\*&\(\)]*\s)?(xtl|half_float|mpark|tcb)::", p[2]) and "nlohmann" not in p[2]:
-                    names.add(p[2])
-            nsyms = len(names)
-    programs = [("2tu", ["tu0", "tu1", "main2"])] if keep else [("1tu", ["tu0", "main1"]), ("2tu", ["tu0", "tu1", "main2"])]
-    for pname, parts in programs:
+    for pname, parts in [("1tu", ["tu0", "main1"]), ("2tu", ["tu0", "tu1", "main2"])]:
         exe = os.path.join(d, "prog-" + pname)
         rc, _, err = run_tool([cfg[0]] + [objs[p] for p in parts] + ["-o", exe], timeout=900)
         stat(ctx, "tool_runs", 1)
@@ -444,7 +473,7 @@ def run_link_cfg(ctx, headers, cfg, keep, bud):
             finds.append(("run-" + pname, fate, (out[-300:] + " | " + r.stderr.decode("utf-8", "replace")[-300:]).replace("\n", " ")))
     if not finds:
         shutil.rmtree(d, ignore_errors=True)
-    return [("nsyms", nsyms, "")] + finds if nsyms is not None else finds
+    return finds
 
 
 def exec_links(ctx, bud, headers, cfgs, keep_cfgs, workers):
@@ -470,20 +499,18 @@ def judge_links(ctx, headers, units, res, broken):
                 continue
             if stage == "tu-compile":
                 sig = "C19/all-headers/%s-order-tu/does-not-compile" % key
-            elif stage.startswith("link-"):
+            elif stage.startswith("link-") or stage == "keep-inline":
                 sig = "C19/%s/%s/%s" % (key[0], stage, key[1])
             else:
                 sig = "C19/all-headers/%s/%s" % (stage, key)
             agg.setdefault(sig, []).append((c, k, diag))
     for sig, lst in agg.items():
         cf = sorted(set((c, k) for c, k, _ in lst))
-        if "does-not-compile" in sig:
-            sig += "@" + cfgclass([c for c, k in cf], [c for c, k in done])
         c, k, diag = lst[0]
         msg = ("translation units that include every public header (TU0 alphabetical, TU1 reverse order) and use every non-template function: %s fails in %d configuration(s): %s. "
                "First diagnostic [%s%s]: %s. Expected: compiles, links into one program without duplicate-definition or undefined-symbol errors, runs, and both TUs compute the same values." % (
                    sig.split("/", 2)[2], len(cf), "; ".join(cfg_name(c_) + (" -fkeep-inline-functions" if k_ else "") for c_, k_ in cf), cfg_name(c), " -fkeep-inline-functions" if k else "", diag))
-        ctx.violation(sig, msg, harness="c19-link", args=[json.dumps({"kind": "link", "done": [[list(c_), k_] for c_, k_ in done]})])
+        ctx.violation(sig, msg, harness="c19-link", args=[json.dumps({"kind": "link", "unit": [list(c), k]})])  # the signature does not depend on the configuration: replay the first failing one
     return done
 
 
@@ -612,7 +639,7 @@ def judge_errpaths(ctx, cfgs, res, only=None):
         ks = [k for k, (n, _) in table.items() if n == name]
         msg = "error path %s: %s. Configurations (%d): %s. Expected: with -fno-exceptions the process terminates inside the failing call." % (
             name, lst[0][1], len(cf), "; ".join(cfg_name(c) for c in cf))
-        ctx.violation(sig, msg, harness="c19-errpaths", args=[json.dumps({"kind": "errpaths", "k": ks, "cfgs": cf})])
+        ctx.violation(sig, msg, harness="c19-errpaths", args=[json.dumps({"kind": "errpaths", "k": ks, "cfgs": cf[:1]})])
     return done, n_eval, nt, len(confirmed)
 
 
@@ -699,7 +726,9 @@ def _run(ctx):
     th4 = background("u4", lambda: exec_errpaths(ctx, bud, sp["u4"], 3 if quick else 4))
 
     # U1
-    cases1 = [(h, "single", c) for c in sp["u1_single"] for h in headers] + [(h, "double", c) for c in sp["u1_double"] for h in headers]
+    # order = priority under a deadline: g++ single, double, clang++ single
+    cases1 = ([(h, "single", c) for c in sp["u1_single"] if c[0] == "g++" for h in headers] + [(h, "double", c) for c in sp["u1_double"] for h in headers]
+              + [(h, "single", c) for c in sp["u1_single"] if c[0] != "g++" for h in headers])
     res1 = run_includes(ctx, bud, cases1, max(4, WORKERS - 6))
     th3.join()
     th4.join()
@@ -829,8 +858,8 @@ def _replay(ctx, rec):
         res2, _ = run_pairs(ctx, bud, headers, cfgs, pairs=pairs)
         judge_pairs(ctx, res2, broken)
     elif d["kind"] == "link":
-        done = [(_tup(c), k) for c, k in d["done"]]
-        units, res = exec_links(ctx, bud, headers, [c for c, k in done if not k], [c for c, k in done if k], 6)
+        c, k = _tup(d["unit"][0]), d["unit"][1]
+        units, res = exec_links(ctx, bud, headers, [] if k else [c], [c] if k else [], 1)
         judge_links(ctx, headers, units, res, set())
     elif d["kind"] == "errpaths":
         cfgs = [_tup(c) for c in d["cfgs"]]
